@@ -124,7 +124,7 @@ class Exec:
         self.uni = uni; self.scope = dict(scope or {}); self.obls = []; self.name = name
         self.prune = prune; self.call_model = call_model or {}; self._solver = None; self.npaths = 0
         self.inline_repo_funcs = inline_repo_funcs; self.assumptions = set(); self.dropped = set()
-        self._axioms = None; self.nprune = 0; self.raised = []; self.fstr_eval_calls = False; self.on_yield = None; self.yield_resume = None; self.loop_contracts = {}; self.loop_index = {}; self.fields_mode = False; self.method_names = {'values', 'items', 'keys', 'get'}; self.ghost_unhashable = False; self.quantify_allany = False
+        self._axioms = None; self.nprune = 0; self.raised = []; self.fstr_eval_calls = False; self.on_yield = None; self.yield_resume = None; self.loop_contracts = {}; self.loop_index = {}; self.fields_mode = False; self.method_names = {'values', 'items', 'keys', 'get'}; self.ghost_unhashable = False; self.quantify_allany = False; self.bitor_is_dict_union = False
     # ------------------------------------------------------------ helpers
     def obl(self, st, kind, goal, where=''):
         self.obls.append(Obl(f'{self.name}.{kind}.{len(self.obls)}', kind, st.pc, goal, where))
@@ -324,6 +324,13 @@ class Exec:
             if isinstance(n.op, ast.Add) and not (self.is_intlike(l) or isinstance(l, VBool)) and not (self.is_intlike(r) or isinstance(r, VBool)) and (isinstance(l, (VTup, VSlice, VFStr)) or isinstance(r, (VTup, VSlice, VFStr))):
                 # sequence / string concatenation: an uninterpreted function of both operands
                 outs.append((s, VObj(z3.Function('concat', Obj, Obj, Obj)(self.obj(l), self.obj(r))))); continue
+            if isinstance(n.op, ast.BitOr) and self.bitor_is_dict_union and not (self.is_intlike(l) or isinstance(l, (VInt, VBool))):
+                # PEP 584 dict union (also FrozenDict): keys of either operand, the right operand's value wins
+                lt, rt = self.obj(l), self.obj(r); R = M.fresh('dict_union'); kq = M.fresh('ku')
+                Map = self.uni.const(cabc.Mapping); ok = z3.And(M.inst(lt, Map), M.inst(rt, Map))
+                self.obl(s, 'defined.dict_union', ok, ast.unparse(n)[:80]); s2 = s.assume(ok)
+                law = z3.ForAll([kq], z3.And(M.mem(R, kq) == z3.Or(M.mem(lt, kq), M.mem(rt, kq)), M.mget(R, kq) == z3.If(M.mem(rt, kq), M.mget(rt, kq), M.mget(lt, kq))))
+                outs.append((s2.assume(law).assume(M.inst(R, Map)), VObj(R))); continue
             a, b = self.as_int(l), self.as_int(r)
             if isinstance(n.op, ast.Mod):
                 self.obl(s, 'defined.mod', b != 0, ast.unparse(n)[:80]); s = s.assume(b != 0)
